@@ -2,6 +2,7 @@ import Proofs.FilePieceMain
 import Proofs.FilePieceRC
 import Proofs.FilePieceTokenize
 import Proofs.FilePieceNum
+import Proofs.FilePieceLineInput
 import Generated.C18
 /-!
 # C18 — Text input is transparent to buffering, mapping, compression and read sizes
@@ -216,6 +217,24 @@ theorem lineIterator_total (env : Env) (hp : 0 < env.cfg.page) (G : NumKind → 
   obtain ⟨i, o⟩ := init_spec env mb b hp ⟨hH, hF⟩
   rw [lineIter_eq env G hG hH hI hF d s f _ i, o]; rfl
 
+/-- **LineInput** (util/stream/line_input.cc): for every block size, chunk oracle and member chain, the blocks handed
+down the chain concatenate to the input, every block but the last ends with a newline and none exceeds the block
+size; the only failure is a stretch of `B` consecutive input bytes without a newline ("Is this a text file?"); the
+fuel `length + 1` is never exhausted.  (No correspondence run: the class has no constructor definition in the tree.) -/
+theorem lineInput_blocks (orc : Nat → Nat) (B : Nat) (ch : Chain) (hB : 0 < B) :
+    match liRun orc B (ch.flatten.length + 1) ch 0 [] with
+    | .ok blocks => blocks.flatten = ch.flatten ∧ LiGood B blocks
+    | .error .noNewline => ∃ buf, buf.length = B ∧ (∀ x ∈ buf, (x == 10) = false) ∧ buf <:+: ch.flatten
+    | .error .fuel => False := by
+  have := liRun_spec orc B (ch.flatten.length + 1) ch 0 [] (by simpa using hB) (by omega)
+  cases h : liRun orc B (ch.flatten.length + 1) ch 0 [] with
+  | ok bl => rw [h] at this; simpa using this
+  | error e =>
+    rw [h] at this
+    cases e with
+    | noNewline => simpa using this
+    | fuel => exact this
+
 /-! ## non-vacuity -/
 
 /-- a grammar satisfying the hypotheses: "a leading '0' is the number 0" -/
@@ -270,6 +289,15 @@ example : transcript env0 (fun _ => toyGrammar) [.readDelimited isSpace, .readDe
     (init env0 1 .pipe) =
     [(.bytes [97, 98], 2), (.bytes [99, 100, 101, 102, 103, 104, 105, 106, 107, 108], 13), (.char 10, 14), (.eof, 14)] := by
   decide
+
+/-- a chain of three members (one empty) read in 2-byte pieces with requests of 3 bytes; blocks of 5 bytes -/
+example : rcReadAll (fun _ => 2) (fun _ => 3) 20 [[97, 98, 10, 99], [], [100, 10, 101]] 0 = [97, 98, 10, 99, 100, 10, 101] ∧
+    (match liRun (fun _ => 2) 5 8 [[97, 98, 10, 99], [], [100, 10, 101]] 0 [] with | .ok b => b | .error _ => []) =
+      [[97, 98, 10], [99, 100, 10], [101]] := by
+  decide
+
+example : KV.Tokenize.tokens isSpace true [32, 97, 98, 32, 32, 99, 10] = [[97, 98], [99]] ∧
+    KV.Tokenize.tokens isSpace false [32, 97, 32] = [[], [97], []] := by decide
 
 /-! ## Old: today's code violates the property (the witnesses are replayed on the real code by the check) -/
 section Old
